@@ -158,6 +158,8 @@ def _worker(job):
             opts += more_options(rng)
         if profile == "known_cascade_s3":
             opts = ["--accelerator-config", "ethos-u55-128", "--optimise", "Size"]
+        if profile.startswith("hl2npu:") and net.name.startswith("casc"):
+            opts = ["--accelerator-config", rng.choice(["ethos-u55-128", "ethos-u55-64", "ethos-u55-256", "ethos-u55-32"]), "--optimise", "Size"]
         if net.name.endswith(("casc_s2_valid",)) and rng.random() < 0.7:
             opts = ["--accelerator-config", rng.choice(["ethos-u55-128", "ethos-u55-64", "ethos-u55-256"]), "--optimise", "Size"]
         if net.name.endswith(("residual", "big_fm_u65")) and rng.random() < 0.6:
